@@ -328,8 +328,16 @@ def gen_universe(rng, n_roots=None, max_levels=3, rich=True, force_falsy=False):
         for k in range(rng.randint(1, 2)):
             mixin_names.append("M" + "xyz"[k] + tag)
     all_names = mixin_names + [p[0] for p in plan]
-    for mname in mixin_names:
-        classes.append(ClassSpec(mname, None, [], falsy=False))
+    for mi, mname in enumerate(mixin_names):
+        # mixins may declare keyword-only properties with defaults (no constraint on the order of positional fields);
+        # a class that inherits them through its SECOND base must still classify them
+        mown = []
+        for j in range(rng.choice([0, 1, 1, 2])):
+            pt = rng.choice(["int", "str", "bool", "optint", "tupint"])
+            f = FieldSpec(f"m{'xyz'[mi]}{j}", "Prop", ptype=pt, kw_only=True, has_default=True, default=gen_value(rng, pt, enum_name))
+            f.compare = rng.random() < 0.8
+            mown.append(f)
+        classes.append(ClassSpec(mname, None, mown, falsy=False))
     plan = [(m, None) for m in mixin_names] + plan
     fname_pool = ["a", "ab", "b", "child", "items", "x", "xs", "y", "z", "left", "right", "body", "name", "value", "t", "n"]
     for idx, (cname, base) in enumerate(plan):
@@ -392,6 +400,15 @@ def gen_universe(rng, n_roots=None, max_levels=3, rich=True, force_falsy=False):
         mix = []
         if mixin_names and rng.random() < 0.45:
             mix = sorted(rng.sample(mixin_names, k=rng.randint(1, len(mixin_names))))
+        if mixin_names and base is not None and rng.random() < 0.5:
+            # prefer a mixin that the primary base does not already bring in
+            u_tmp2 = Universe(classes, enum_name, future, uid)
+            have = set(u_tmp2.linearize(base))
+            fresh_m = [m for m in mixin_names if m not in have]
+            if fresh_m:
+                mix = sorted(set(mix) | {rng.choice(fresh_m)})
+        if mix and base is not None and rng.random() < 0.4:
+            own = []      # `class C(A, M): pass`: everything is inherited, part of it through the second base
         classes.append(ClassSpec(cname, base, own, falsy=rng.random() < 0.15, slots=False, mixins=mix))
     u = Universe(classes, enum_name, future, uid)
     if force_falsy:
